@@ -15,7 +15,13 @@ def gen_files(ctx, label, n):
             j = k // 60
             ast = instgen.gen_ast_large(rng, bases[j // 2], side=1 + j % 2)
         elif k % 7 == 6:
-            ast = instgen.gen_ast(rng, maxS=12, maxP=14, maxL=4, S=rng.randint(8, 12), P=rng.randint(9, 14))   # multi-digit ids
+            if k % 14 == 6:
+                ast = instgen.gen_ast(rng, maxS=12, maxP=14, maxL=4, S=rng.randint(8, 12), P=rng.randint(9, 14))   # multi-digit ids
+            else:
+                # multi-digit ids on both sides with colliding decimal concatenations ((11, 1) / (1, 11), ...)
+                P = rng.randint(11, 14)
+                ast = instgen.gen_ast(rng, maxS=13, maxP=14, S=rng.randint(12, 13), P=P, L=P,
+                                      force_pairs=[(11, 1), (1, 11), (12, 1), (2, 11), (1, 12)])
         else:
             ast = instgen.gen_ast(rng)
         twopl = rng.random() < 0.6
